@@ -86,6 +86,7 @@ pub fn exp_json(sp: Span) -> J {
 
 struct Cb {
     thir: Option<J>,
+    consts: Option<J>,
     items: Option<J>,
 }
 
@@ -137,6 +138,23 @@ impl rustc_driver::Callbacks for Cb {
             fns.push(f);
         }
         self.thir = Some(J::Arr(fns));
+        // initialisers of local constants (`const N: usize = 64;`, associated consts): rules substitute them for the name
+        let mut consts = vec![];
+        for ldid in tcx.hir_body_owners() {
+            let did = ldid.to_def_id();
+            match tcx.def_kind(did) {
+                DefKind::Const { .. } | DefKind::AssocConst { .. } => {}
+                _ => continue,
+            }
+            let Ok((steal, root)) = tcx.thir_body(ldid) else { continue };
+            let th = steal.borrow();
+            let d = thir::Dump { tcx, thir: &th };
+            let mut c = J::obj();
+            c.set("path", J::s(path_str(tcx, did)));
+            c.set("init", d.expr(root));
+            consts.push(c);
+        }
+        self.consts = Some(J::Arr(consts));
         Compilation::Continue
     }
 
@@ -166,6 +184,7 @@ impl rustc_driver::Callbacks for Cb {
         root.set("features", J::Arr(cfgs));
         root.set("items", self.items.take().unwrap_or(J::Null));
         root.set("thir", self.thir.take().unwrap_or(J::Null));
+        root.set("consts", self.consts.take().unwrap_or(J::Null));
         root.set("mir", mirs);
         let mut s = String::new();
         root.write(&mut s);
@@ -306,6 +325,7 @@ fn main() {
     }
     let mut cb = Cb {
         thir: None,
+        consts: None,
         items: None,
     };
     rustc_driver::run_compiler(&args, &mut cb);
